@@ -81,6 +81,7 @@ def _lf(ctx, t, depth=0):
                     return _lf(ctx, it_, depth + 1)
         off = 0
         whole = None
+        trunc = None
         for e in evs:
             if e.tag != 'ev' or e[1] != 'call':
                 raise Unknown('store into container')
@@ -100,9 +101,30 @@ def _lf(ctx, t, depth=0):
                 pass
             elif d.split('::')[-1] in ('reserve', 'reserve_exact', 'shrink_to_fit'):
                 pass
+            elif d == 'std::vec::Vec::<T, A>::truncate' and e[3]:
+                # `v.truncate(n)` leaves min(len, n) elements: when n is one of the lengths the vector has at least (it was a copy of X,
+                # extended by k >= 0, truncated to len(X)), that is n again
+                n_ = e[3][0]
+                while n_.tag in ('mut', 'via', 'cast'):
+                    n_ = n_[1] if n_.tag == 'mut' else n_[2]
+                n_atom = canon(n_) if (n_.tag == 'call' and n_[1].split('::')[-1] == 'len') else '=' + canon(n_)
+                a0, o0 = _lf(ctx, whole if whole is not None else base, depth + 1)
+                same_len = n_atom in a0
+                if not same_len and n_.tag == 'call' and n_[1].split('::')[-1] == 'len' and len(n_[2]) == 1:
+                    try:
+                        an, on = _lf(ctx, n_[2][0], depth + 1)       # the length of X in the same vocabulary
+                        same_len = on == 0 and an == a0
+                    except Unknown:
+                        same_len = False
+                if trunc is None and same_len and o0 + off >= 0:
+                    trunc, off = a0, 0
+                else:
+                    raise Unknown('truncate to a length that is not known to be within the vector (%s vs %s, offset %s)' % (n_atom, sorted(a0), o0 + off))
             else:
                 raise Unknown('event %s changes the length by an unknown amount' % d)
         # (pushes and pops in loops relative to one another are not modelled: straight-line balance only)
+        if trunc is not None:
+            return trunc, off
         if whole is not None:
             a, o = _lf(ctx, whole, depth + 1)
             return a, o + off
